@@ -29,7 +29,7 @@ META = {
 }
 
 TIMEOUTS = {"client_idle_pconn_timeout": 2, "server_idle_pconn_timeout": 3, "read_timeout": 2, "request_timeout": 2,
-            "request_start_timeout": 2, "write_timeout": 3, "connect_timeout": 2}
+            "request_start_timeout": 2, "write_timeout": 3, "connect_timeout": 2, "client_lifetime": 4}
 QUIESCE = max(TIMEOUTS.values()) + 6.0      # how long the descriptors may take to return after traffic stops
 CONF_COMMON = "".join("%s %d seconds\n" % kv for kv in sorted(TIMEOUTS.items()))
 CFGS = {
